@@ -824,10 +824,65 @@ def explicit():
 
 # ----------------------------------------------------------------------------------------------- all
 
+
+def signedness():
+    """unsigned intermediate results of 128 and more (a conditional value, a literal, a shift result, a sum, a
+    complement) where the generator must NOT treat them as signed: ordered comparisons (carry, not sign), zero extension
+    into 16 bits, alone and as the right operand of an addition whose left operand occupies the accumulator."""
+    progs = []
+    s0, s1, v1, v2, v3 = VAR('s0'), VAR('s1'), VAR('v1'), VAR('v2'), VAR('v3')
+
+    def emit8(name, stmts):
+        pk = Pack("sgn-" + name, cap=2)
+        k = pk.cell()
+        pk.add(stmts(R(k)))
+        pk.flush()
+        progs.extend(pk.programs)
+
+    def emit16(name, stmts):
+        pk = Pack("sgn-" + name, cap=2, shorts="four")
+        pk.cell(); pk.cell()
+        pk.add(stmts + [SET(R(0), s0), SET(R(1), ('bin', '>>', s0, NUM(8)))])
+        pk.flush()
+        progs.extend(pk.programs)
+
+    for sel in (0, 1):
+        base = [SET(v1, NUM(sel)), SET(v2, NUM(50)), SET(v3, NUM(100)), SET(s1, NUM(0x0100))]
+        producers = [
+            ("tern", ('tern', v1, NUM(200), NUM(131))),
+            ("tern-v", ('tern', v1, v3, NUM(250))),
+            ("sum-tern", ('bin', '+', v2, ('tern', v1, NUM(200), NUM(131)))),
+            ("shl", ('bin', '<<', v3, NUM(1))),
+            ("sum-shl", ('bin', '+', v2, ('bin', '<<', v3, NUM(1)))),
+            ("bnot", ('bnot', v2)),
+            ("sum", ('bin', '+', v3, v3)),
+            ("or", ('bin', '|', v2, NUM(128))),
+            # the conditional value is evaluated while the accumulator holds the left operand (result handed over in cctmp)
+            ("acc-tern", ('bin', '+', ('bin', '|', v2, NUM(1)), ('tern', v1, NUM(150), NUM(140)))),
+            ("acc-tern-sub", ('bin', '-', ('bin', '+', v3, v3), ('tern', v1, NUM(10), NUM(20)))),
+            # … and shifted right afterwards: a logical shift (LSR), not an arithmetic one
+            ("acc-tern-shr", ('bin', '+', ('bin', '|', v2, NUM(1)), ('bin', '>>', ('tern', v1, NUM(200), NUM(131)), NUM(1)))),
+            ("tern-shr", ('bin', '>>', ('tern', v1, NUM(200), NUM(131)), NUM(2))),
+            ("sum-shr", ('bin', '>>', ('bin', '+', v3, v3), NUM(1))),
+            ("const-minus-acc-tern-shr", ('bin', '+', ('bin', '|', v2, NUM(1)), ('bin', '>>', ('bin', '-', NUM(250), ('tern', v1, NUM(10), NUM(20))), NUM(1)))),
+        ]
+        for nm, e in producers:
+            for cop, k in (('>=', 100), ('<', 100), ('>', 100), ('<=', 100), ('>=', 129), ('<', 250), ('>=', 50), ('<', 20)):
+                emit8("%s%s%d-%d" % (nm, cop, k, sel), lambda r, e=e, cop=cop, k=k: base + [('if', ('cmp', cop, e, NUM(k)), SET(r, NUM(1)), SET(r, NUM(2)))])
+                emit8("%s%s%d-rev-%d" % (nm, cop, k, sel), lambda r, e=e, cop=cop, k=k: base + [('if', ('cmp', cop, NUM(k), e), SET(r, NUM(1)), SET(r, NUM(2)))])
+            emit8("%s-var-%d" % (nm, sel), lambda r, e=e: base + [('if', ('cmp', '>=', e, v3), SET(r, NUM(1)), SET(r, NUM(2)))])
+            emit8("%s-value-%d" % (nm, sel), lambda r, e=e: base + [SET(r, e)])
+            if "shl" in nm or "shr" in nm:
+                continue        # a non-compound shift into a 16-bit destination: recorded finding sixteen-bit-non-compound-shift
+            emit16("%s-wide-%d" % (nm, sel), base + [SET(s0, e)])
+            emit16("%s-wide-sum-%d" % (nm, sel), base + [SET(s0, ('bin', '+', s1, e))])
+            emit16("%s-wide-opasg-%d" % (nm, sel), base + [SET(s0, NUM(0x00f0)), ('expr', ('opasg', '+', s0, e))])
+    return progs
+
 def all_programs(families=None):
     fams = {"update-then-test": update_then_test, "update-then-loop": update_then_loop, "comparisons": comparisons,
             "folded": folded_comparisons, "far": far_branches, "switch": switches, "triples": triples, "restore": restore,
-            "precedence": precedence, "loop-headers": loop_headers, "wide": wide, "nested": nested, "calls": calls, "pointers": pointers, "scopes": scopes, "signed": signed_values, "explicit": explicit}
+            "precedence": precedence, "loop-headers": loop_headers, "wide": wide, "nested": nested, "calls": calls, "pointers": pointers, "scopes": scopes, "signed": signed_values, "explicit": explicit, "signedness": signedness}
     out = []
     for n, f in fams.items():
         if families is None or n in families:
